@@ -267,13 +267,17 @@ def _lambda_var_holes(shape) -> List[int]:
     return found
 
 
+def prepare(tier: str, seed: int) -> None:
+    SHAPES[:] = _shapes(tier, seed)
+    MAPS[:] = _maps()
+
+
 def main() -> int:
     run = Run(PID, "model_checking")
     run.encode("odata_query.rewrite.AliasRewriter.visit_Identifier", "odata_query.rewrite.AliasRewriter.visit_Attribute",
                "odata_query.rewrite.AliasRewriter.__init__", "odata_query.visitor.NodeTransformer.generic_visit",
                "odata_query.visitor.NodeVisitor.visit")
-    SHAPES[:] = _shapes(run.tier, run.seed)
-    MAPS[:] = _maps()
+    prepare(run.tier, run.seed)
     run.bounds = {"names": "alias keys, targets, fields, function names, parameter names, lambda variables, namespace "
                            "segments: symbolic str, len == 1 (one arbitrary code point) - all equality patterns covered",
                   "alias maps": "8 map shapes: 1-2 keys; key in {identifier, path/1, path/2}; target in {identifier, "
